@@ -153,6 +153,12 @@ def source_b(case):
     if k == "flatten":
         _, where, skip, merged = case
         fl = "#[serde(rename = \"x\", flatten)]" if merged else "#[serde(flatten)]"
+        if merged == "serialized_as_after":
+            fl = '#[serde(flatten)] #[typeshare(serialized_as = "String")]'
+        elif merged == "serialized_as_before":
+            fl = '#[typeshare(serialized_as = "String")] #[serde(flatten)]'
+        elif merged == "default_too":
+            fl = "#[serde(default, flatten)]"
         if where == "struct":
             return "#[typeshare]\npub struct Outer { pub keep: String, %s %s pub inner: Inner }\n" % (skip, fl)
         return '#[typeshare]\n#[serde(tag = "t", content = "c")]\npub enum Outer { Keep(String), Bad { keep: String, %s %s inner: Inner } }\n' % (skip, fl)
@@ -218,7 +224,7 @@ CONSTS = [("12", "u32", 12), ("0", "i32", 0), ("-5", "i32", None), ("1 + 2", "u3
 def b_cases(tier):
     out = enum_cases(2 if tier == "quick" else 3)
     out += [("tuple_struct", n) for n in (1, 2, 3)]
-    out += [("flatten", w, s, m) for w in ("struct", "variant") for s in ("", "#[serde(skip)]", "#[typeshare(skip)]") for m in (False, True)]
+    out += [("flatten", w, s, m) for w in ("struct", "variant") for s in ("", "#[serde(skip)]", "#[typeshare(skip)]") for m in (False, True, "serialized_as_after", "serialized_as_before", "default_too")]
     out += [("const", e, t, v) for e, t, v in CONSTS]
     return out
 
